@@ -641,6 +641,12 @@ def build_items(tier, seed):
     # a connected node that refuses children must stay silent (and clean) when others poll its level
     cases.append(dict(ids=[21, 22, 23, 24, 25, 26, 27, 28], offsets=[j * 40 * MS for j in range(8)], cost=0, lat=0, seed=seed, mlen=7, tail=300,
                       no_children=[22, 23], send_to=1))
+    # level 1 full and only ONE of its nodes accepts children - the first or the last that joined (whichever holds 0o1 /
+    # 0o5): the sixth node has to join through exactly that relay
+    cases.append(dict(ids=[51, 52, 53, 54, 55, 56], offsets=[j * 40 * MS for j in range(6)], cost=0, lat=0, seed=seed, mlen=6, tail=300,
+                      no_children=[52, 53, 54, 55], send_to=1))
+    cases.append(dict(ids=[51, 52, 53, 54, 55, 56], offsets=[j * 40 * MS for j in range(6)], cost=0, lat=0, seed=seed, mlen=6, tail=300,
+                      no_children=[51, 52, 53, 54], send_to=1))
     # (A chain forced down to level 4 through relay 0o444 - 11 sequential joiners, most with allow_children off -
     # was tried and dropped: the unacknowledged, never repeated MESH_ADDR_RESPONSE of the last hop collides with a
     # bystander's forwarding at exactly the same instant in every (identical) retry cycle of this jitter-free model,
